@@ -70,7 +70,8 @@ def gen_cases(tier, rng):
                 cases.append(('date', v6, 'D8', 'B', '00401'))
     # 3. date + HHMM, date ranges with 0..3 hyphens
     good = ['20040229', '19991231', '18000101']
-    bad = ['20030229', '17991231', '2004022', '200402299', '2004a229', '']
+    # halves that are valid dates of ANOTHER length (YYMMDD, CCYYMMDDHHMM): a range takes CCYYMMDD halves only
+    bad = ['20030229', '17991231', '2004022', '200402299', '2004a229', '', '040229', '960229', '991231', '200402291200', '0402291200', '040230']
     for a in good + bad:
         for hh in ('0000', '2359', '2400', '2360', '12', '123', '12345', '12a4'):
             cases.append(('datetime', a + hh, 'DT', 'B', '00401'))
